@@ -142,7 +142,9 @@ Definition post_path (st : state) (acts : list expr) (g : graph) (prim : bool)
   if prim then
     let* '(st2, endp) := for_each (path_step acts passed g) (seq 0 n) (st1, []) in
     let* ce := count_true endp in
-    let st3 := ensure st2 [i_eq ce (PyInt 2)] in
+    let* fo := fold_or passed in
+    (* count_true(is_endpoint) == fold_or(is_passed).cond(2, 0) *)
+    let st3 := ensure st2 [i_eq ce (i_cond fo (PyInt 2) (PyInt 0))] in
     let* st4 := post_avc_primitive st3 acts (line_graph g) in
     Ok (st4, passed)
   else Err OtherError.      (* raise RuntimeError("TODO") *)
